@@ -12,6 +12,7 @@ import (
 	"github.com/pentops/j5/lib/j5codec"
 	"google.golang.org/protobuf/proto"
 	"google.golang.org/protobuf/reflect/protoreflect"
+	"google.golang.org/protobuf/types/dynamicpb"
 
 	"verifharness/codecgen"
 	"verifharness/vh"
@@ -34,6 +35,14 @@ func loadTargets() ([]*target, error) {
 		mk("env_nested", &schema_testpb.NestedExposed{}),
 		mk("env_implicit", &schema_testpb.ImplicitOneof{}),
 		mk("env_bar", &schema_testpb.Bar{}),
+	}
+	wf, err := codecgen.WideFile()
+	if err != nil {
+		return nil, err
+	}
+	for _, n := range []string{"Wide", "Choice", "Flat"} {
+		md := wf.Messages().ByName(protoreflect.Name(n))
+		ts = append(ts, &target{Name: "env_" + strings.ToLower(n), New: func() protoreflect.Message { return dynamicpb.NewMessage(md) }})
 	}
 	for _, t := range ts {
 		env, err := codecgen.BuildEnv(t.New().Descriptor())
@@ -67,17 +76,16 @@ type obs struct {
 	Elapsed time.Duration
 }
 
-var frameRe = regexp.MustCompile(`github\.com/pentops/j5/[^\s(]+`)
-
 func panicSite(stack string) string {
 	for _, line := range strings.Split(stack, "\n") {
-		if strings.Contains(line, "verifharness") || strings.Contains(line, "runtime/") {
+		line = strings.TrimSpace(line)
+		if !strings.HasPrefix(line, "github.com/pentops/j5/") {
 			continue
 		}
-		if m := frameRe.FindString(line); m != "" {
-			m = strings.TrimPrefix(m, "github.com/pentops/j5/")
-			return m
+		if i := strings.LastIndex(line, "("); i > 0 {
+			line = line[:i]
 		}
+		return strings.TrimPrefix(line, "github.com/pentops/j5/")
 	}
 	return "?"
 }
@@ -92,7 +100,7 @@ func panicClass(p string) string {
 	return p
 }
 
-const callDeadline = 20 * time.Second
+const callDeadline = 60 * time.Second
 
 func guarded(f func() (protoreflect.Message, error)) obs {
 	done := make(chan obs, 1)
